@@ -201,6 +201,12 @@ std::string state_text() {
   if (!any) os << "-";
   os << " pend=";
   for (int t = 0; t < nthreads; ++t) os << (t ? "," : "") << pend_name(t);
+  os << " left=";
+  for (int t = 0; t < nthreads; ++t) {
+    const Worker *w = workers[t].get();
+    const std::size_t left = (!w || w->finished) ? 0 : w->prog.size() - w->op_index - 1;
+    os << (t ? "," : "") << left;
+  }
   return os.str();
 }
 
